@@ -408,6 +408,30 @@ func genConsts() string {
 				return true
 			})
 			fmt.Fprintf(&sb, "def server_servedHandler : String := %s  -- %s main: second argument of http.Serve\n", strconv.Quote(served), srel)
+			// request IDs must not repeat across proxy instances (the agent and its in-flight requests outlive a proxy
+			// process): they are drawn from a generator seeded per process
+			nid := mustFunc(sf, srel, "proxy", "newID")
+			drawn := ""
+			ast.Inspect(nid, func(n ast.Node) bool {
+				if c, ok := n.(*ast.CallExpr); ok && strings.HasPrefix(src(c.Fun), "p.randGenerator.") {
+					drawn = src(c)
+				}
+				return true
+			})
+			seed := ""
+			ast.Inspect(sf, func(n ast.Node) bool {
+				if kv, ok := n.(*ast.KeyValueExpr); ok && src(kv.Key) == "randGenerator" {
+					ast.Inspect(kv.Value, func(m ast.Node) bool {
+						if c, ok := m.(*ast.CallExpr); ok && src(c.Fun) == "rand.NewSource" && len(c.Args) == 1 {
+							seed = src(c.Args[0])
+						}
+						return true
+					})
+				}
+				return true
+			})
+			fmt.Fprintf(&sb, "def server_requestIDDraw : String := %s  -- %s newID: the call on the proxy's random generator that a request ID is derived from\n", strconv.Quote(drawn), srel)
+			fmt.Fprintf(&sb, "def server_requestIDSeed : String := %s  -- %s newProxy: seed of that generator\n", strconv.Quote(seed), srel)
 		}
 		// flag defaults that the lifecycle model refers to
 		env := collectConsts(f)
@@ -624,6 +648,40 @@ func genConsts() string {
 		rel := "utils/tcpbridge/connection/connection.go"
 		env := collectConsts(parseFile(rel))
 		emitStr("connection_StreamingPath", mustString(env, "StreamingPath", rel), rel)
+		// the frontend's websocket dial: a handshake that the peer never answers must be given up (gorilla's
+		// DefaultDialer has a 45 s HandshakeTimeout; a hand-made Dialer has none unless it sets the field)
+		{
+			cf := parseFile(rel)
+			dw := mustFunc(cf, rel, "", "DialWebsocket")
+			bounded := false
+			dialer := ""
+			ast.Inspect(dw, func(n ast.Node) bool {
+				if c, ok := n.(*ast.CallExpr); ok {
+					if sel, ok := c.Fun.(*ast.SelectorExpr); ok && (sel.Sel.Name == "DialContext" || sel.Sel.Name == "Dial") {
+						dialer = src(sel.X)
+					}
+				}
+				return true
+			})
+			if dialer == "websocket.DefaultDialer" {
+				bounded = true
+			} else if dialer != "" {
+				// a package-level or local dialer: bounded iff its literal sets HandshakeTimeout (or a deadline is put on ctx)
+				ast.Inspect(cf, func(n ast.Node) bool {
+					if kv, ok := n.(*ast.KeyValueExpr); ok && src(kv.Key) == "HandshakeTimeout" {
+						bounded = true
+					}
+					return true
+				})
+				if strings.Contains(src(dw), "context.WithTimeout") || strings.Contains(src(dw), "context.WithDeadline") {
+					bounded = true
+				}
+			}
+			if dialer == "" {
+				fail("%s: DialWebsocket: no Dial/DialContext call found", rel)
+			}
+			fmt.Fprintf(&sb, "def connection_dialBoundsHandshake : Bool := %v  -- %s DialWebsocket dials with %s\n", bounded, rel, dialer)
+		}
 		// the bridge backend's server: deadlines on whole requests or responses (http.Server.ReadTimeout/WriteTimeout,
 		// http.TimeoutHandler) would cut long-lived pass-through exchanges short
 		brel := "utils/tcpbridge/tcp-bridge-backend/tcp-bridge-backend.go"
